@@ -28,6 +28,12 @@ def queries():
             qs.append(Q("enumerate-tree%d-inject%s" % (tree, "none" if inj < 0 else inj), "C15_nodetab.c", SRCS,
                         defs={"MODE": 0, "TREE": tree, "INJECT": inj, "VERIF_GARRAY_CAP": 5, "VERIF_QCAP": 4},
                         unwind=8, unwindset=UW, tier="quick" if quick else "thorough"))
+    # identity map concrete (node index -> configured board): one hex digit per node, node 0 (root) lowest: 0x1000 = A unknown interface with board b1 (node C) below it
+    for tree, maps in ((2, (0x1000, 0x2010, 0x0010, 0x1020)), (3, (0x1200, 0x2010, 0x0120, 0x1000))):
+        for mp in maps:
+            qs.append(Q("enumerate-tree%d-map%04x" % (tree, mp), "C15_nodetab.c", SRCS,
+                        defs={"MODE": 0, "TREE": tree, "INJECT": -1, "MATCH": "0x%x" % mp, "VERIF_GARRAY_CAP": 5, "VERIF_QCAP": 4},
+                        unwind=8, unwindset=UW, note="which tree node is which configured board is concrete (unknown interface above a configured board etc.)"))
     qs.append(Q("node-new-lost", "C15_nodetab.c", SRCS, defs={"MODE": 1, "VERIF_GARRAY_CAP": 5, "VERIF_QCAP": 4}, unwind=6, unwindset=UW))
     qs.append(Q("is-subnode", "C15_nodetab.c", SRCS, defs={"MODE": 2, "VERIF_GARRAY_CAP": 5, "VERIF_QCAP": 4}, unwind=6, unwindset=UW))
     return qs
